@@ -16,6 +16,12 @@ def mapO {α β} (g : α → Option β) : List α → Option (List β)
     | some y, some ys => some (y :: ys)
     | _, _ => none
 
+/-- not a multi-field wrapper and not NoneField: a declaration that does not accept None -/
+def plainDecl : FieldDecl → Bool
+  | .anyOf _ | .oneOf _ | .allOf _ | .notF _ | .noneF | .anything => false
+  | .enumLit vals => !PyVal.pyMem .none vals
+  | _ => true
+
 mutual
 def liftable : FieldDecl → Bool
   | .seqOf _ f _ => liftable f
@@ -25,7 +31,7 @@ def liftable : FieldDecl → Bool
   | .tuplePos fs _ => liftableAll fs
   | .mapOf kf vf _ => liftable kf && liftable vf
   | .struct _ fields _ => liftableFields fields
-  | .anyOf _ => false
+  | .anyOf fs => liftableOpt fs
   | .oneOf _ => false
   | .allOf _ => false
   | .notF _ => false
@@ -45,6 +51,14 @@ termination_by structural f => f
 def liftableAll : List FieldDecl → Bool
   | [] => true
   | f :: fs => liftable f && liftableAll fs
+termination_by structural fs => fs
+/-- `Optional[X]` = `AnyOf[NoneField, X]` / `AnyOf[X, NoneField]` over a liftable `X` that is not itself a
+    multi-field wrapper -/
+def liftableOpt : List FieldDecl → Bool
+  | [] => false
+  | [_] => false
+  | f :: g :: [] => (isNoneDecl f && plainDecl g && liftable g) || (isNoneDecl g && plainDecl f && liftable f)
+  | _ :: _ :: _ :: _ => false
 termination_by structural fs => fs
 def liftableFields : List (String × FieldDecl) → Bool
   | [] => true
@@ -96,11 +110,23 @@ def lift (O : Oracles) (opts : DeserOpts) : FieldDecl → PyVal → Option PyVal
   | .enumCls _ _, d => some d
   | .noneF, d => some d
   | .anything, d => some d
-  | .anyOf _, d => some d
+  | .anyOf fs, d => liftOpt O opts fs d
   | .oneOf _, d => some d
   | .allOf _, d => some d
   | .notF _, d => some d
 termination_by structural f _ => f
+
+/-- `Optional[X]`: a null denotes None, anything else what it denotes for `X`; other AnyOf shapes have no
+    documented lifting (the document is handed on) -/
+def liftOpt (O : Oracles) (opts : DeserOpts) : List FieldDecl → PyVal → Option PyVal
+  | [], d => some d
+  | [_], d => some d
+  | f :: g :: [], d =>
+    if isNoneDecl f && plainDecl g then (if d.isNone then some d else lift O opts g d)
+    else if isNoneDecl g && plainDecl f then (if d.isNone then some d else lift O opts f d)
+    else some d
+  | _ :: _ :: _ :: _, d => some d
+termination_by structural fs _ => fs
 
 def liftZip (O : Oracles) (opts : DeserOpts) : List FieldDecl → List PyVal → Option (List PyVal)
   | [], xs => some xs
@@ -160,8 +186,8 @@ def idScalar : FieldDecl → Bool
 
 mutual
 /-- scalars with every constraint, enums, Array / Deque / Tuple (homogeneous — with uniqueItems when
-    the items are plain scalars — or positional), Set of strings, Map from strings, and nested
-    Structure classes, at any depth -/
+    the items are plain scalars — or positional), Set of strings, Map from strings, `Optional[X]`, and
+    nested Structure classes, at any depth -/
 def exactDecl : FieldDecl → Bool
   | .number _ => true
   | .integer _ => true
@@ -181,7 +207,7 @@ def exactDecl : FieldDecl → Bool
   | .setOf _ f _ => isStringDecl f
   | .mapAny _ => false
   | .mapOf kf vf _ => isStringDecl kf && exactDecl vf
-  | .anyOf _ => false
+  | .anyOf fs => exactOpt fs
   | .oneOf _ => false
   | .allOf _ => false
   | .notF _ => false
@@ -191,6 +217,13 @@ termination_by structural f => f
 def exactAll : List FieldDecl → Bool
   | [] => true
   | f :: fs => exactDecl f && exactAll fs
+termination_by structural fs => fs
+/-- `Optional[X]` over an exact `X` that does not itself accept None -/
+def exactOpt : List FieldDecl → Bool
+  | [] => false
+  | [_] => false
+  | f :: g :: [] => (isNoneDecl f && plainDecl g && exactDecl g) || (isNoneDecl g && plainDecl f && exactDecl f)
+  | _ :: _ :: _ :: _ => false
 termination_by structural fs => fs
 def exactFields : List (String × FieldDecl) → Bool
   | [] => true
